@@ -21,12 +21,19 @@ EVIDENCE = dict(
          "twice per process, in fresh interpreters with PYTHONHASHSEED in {0,1,2,3} (quick) / 8 values (thorough)")
 
 
+class WorkerLibraryError(Exception):
+    """the worker interpreter died of an exception raised inside the library under test"""
+
+
 def worker(hashseed, harness_seed, n, with_neg):
     env = dict(os.environ, PYTHONHASHSEED=str(hashseed), D42_REPO=REPO, PYTHONDONTWRITEBYTECODE="1")
     p = subprocess.run([sys.executable, os.path.join(VERIF, "harness", "c17_worker.py"), VERIF, str(harness_seed), str(n),
-                        "2" if with_neg == 2 else ("1" if with_neg else "0")], env=env, stdout=subprocess.PIPE, stderr=subprocess.PIPE, timeout=600)
+                        str(with_neg) if with_neg in (2, 3, 4) else ("1" if with_neg else "0")], env=env, stdout=subprocess.PIPE, stderr=subprocess.PIPE, timeout=600)
     if p.returncode != 0:
-        raise RuntimeError("worker failed: " + p.stderr.decode()[-1500:])
+        err = p.stderr.decode()[-3000:]
+        if os.path.join(REPO, "d42") in err.split("Traceback")[-1].split("File ")[-1]:
+            raise WorkerLibraryError(err)
+        raise RuntimeError("worker failed: " + err[-1500:])
     return json.loads(p.stdout.decode())
 
 
@@ -55,6 +62,14 @@ def compare(ctx, outs, negated):
 
 
 def run(ctx):
+    try:
+        _run(ctx)
+    except WorkerLibraryError as e:
+        ctx.breakage("correspondence", "a worker interpreter died of an exception raised inside the library while faking the "
+                     "seeded sequences", traceback=str(e)[-2500:])
+
+
+def _run(ctx):
     runner.prove(ctx, MODULE, THEOREMS, FILES)
     hashseeds = [0, 1, 2, 3] if ctx.quick() else [0, 1, 2, 3, 4, 5, 6, 7]
     n = ctx.n(60, 400)
@@ -68,6 +83,16 @@ def run(ctx):
     compare(ctx, outs_neg, True)
     outs_nan = [(hs, worker(hs, hseed, 3, 2)) for hs in hashseeds[:3]]
     compare(ctx, outs_nan, False)
+    # seeds equal under == (−3 / −3.0, 1 / True / 1.0, "1" / b"1" …) used in one order here and in the opposite order there
+    fwd, rev = worker(hashseeds[0], hseed, 4, 3), worker(hashseeds[1], hseed, 4, 4)
+    for k, seqs in fwd["runs"].items():
+        ctx.case(("eq-seeds", k), True)
+        other = rev["runs"].get(k)
+        if other is None or seqs[0] != other[0] or seqs[0] != seqs[1] or other[0] != other[1]:
+            ctx.violation("the values after set_seed(k) depend on which other seeds the process used before", seed=k,
+                          forward_order=seqs[0][:3], reverse_order=(other or [None])[0][:3] if other else None,
+                          schema=fwd["schemas"][0], negated_class=False)
+            break
     # the model side: same schemas, same draws => same requests and value (tie of `gen` to the code)
     cases = []
     for s, w in valcases.schema_batch(ctx, ctx.n(40, 300), clock=False):
